@@ -2,7 +2,6 @@
 
 use std::time::Duration;
 
-use grenad::FileVersion;
 use serde_json::json;
 use vlib::fam::FileSpec;
 use vlib::model::Model;
@@ -10,7 +9,7 @@ use vlib::report::{par_for, Acc, Deadline, Report, Tier, Violation};
 
 use crate::common::{codec_of, open, write_file};
 use crate::files::{count_blocks, Population};
-use crate::query::{check_query, scan_queries};
+use crate::query::{check_query, scan_queries, CursorMode, Query};
 
 /// One file: write, open, metadata, six scans. Ok(blocks) or Err((kind, message)).
 pub fn roundtrip(spec: &FileSpec) -> Result<usize, (String, String)> {
@@ -26,11 +25,10 @@ pub fn roundtrip(spec: &FileSpec) -> Result<usize, (String, String)> {
     if reader.compression_type() != codec_of(spec.cfg.codec) {
         return Err(("codec".into(), format!("compression_type() = {:?}, configured codec id {}", reader.compression_type(), spec.cfg.codec)));
     }
-    if reader.file_version() != FileVersion::FormatV2 {
-        return Err(("version".into(), format!("file_version() = {:?}", reader.file_version())));
-    }
     let model = Model::new(entries);
-    for q in scan_queries() {
+    // the statement speaks of the forward and the backward scan of the finished file: fresh
+    // cursors only (reset/clone behaviour belongs to C02/C03)
+    for q in scan_queries().into_iter().filter(|q| matches!(q, Query::Scan { mode: CursorMode::Fresh, .. })) {
         check_query(&bytes, &model, &q).map_err(|e| ("scan".to_string(), e))?;
     }
     Ok(count_blocks(&bytes))
@@ -39,7 +37,7 @@ pub fn roundtrip(spec: &FileSpec) -> Result<usize, (String, String)> {
 fn check_one(spec: &FileSpec, acc: &mut Acc) {
     acc.evaluations += 1;
     acc.states += 1;
-    acc.transitions += 6;
+    acc.transitions += 2;
     match roundtrip(spec) {
         Ok(blocks) => {
             if blocks > spec.cfg.index_levels as usize + 2 {
@@ -79,7 +77,7 @@ pub fn run(tier: Tier) -> i32 {
     let deadline = Deadline::after(Duration::from_secs(tier.pick(50, 3000)));
     let acc = par_for(pop.len(), 32, &deadline, |i, acc| check_one(&pop.get(i), acc));
     rep.acc = acc;
-    rep.set("rule", json!("E2: every file of the population (all entry-shape sequences up to n x the full 224-layout grid; x all codec/level pairs at 3 layouts; all layouts x every codec at small n; deep and dense families x every codec) is written by the real Writer, opened, and scanned 6 ways (next/prev x fresh/reset/clone) against the inserted vector; states = files, transitions = scans; distinct_nontrivial = files in which some level has >= 2 blocks (more blocks than index_levels + 2)"));
+    rep.set("rule", json!("E2: every file of the population (all entry-shape sequences up to n x the full 224-layout grid; x all codec/level pairs at 3 layouts; all layouts x every codec at small n; deep and dense families x every codec) is written by the real Writer, opened, and scanned forward (move_on_next) and backward (move_on_prev) from fresh cursors against the inserted vector, with Reader::len and compression_type checked; states = files, transitions = scans; distinct_nontrivial = files in which some level has >= 2 blocks (more blocks than index_levels + 2)"));
     rep.set("bound", pop.describe());
     rep.assume("third-party codecs are trusted to round-trip; grenad's framing around them is what is checked");
     rep.finish()
